@@ -23,7 +23,8 @@ CONSTANTS
   ProvRank,       \* [Providers -> Nat]: store-key order of provider addresses
   DSeqs, GSeqs, OSeqs,   \* finite sets of sequence numbers in the universe (Nat)
   MinDeposit,     \* DeploymentMinDeposit param (amount)
-  BidMinDeposit   \* BidMinDeposit param (amount)
+  BidMinDeposit,  \* BidMinDeposit param (amount)
+  OrderMaxBids    \* market param: a bid is refused when MORE than this many bids already exist for the order
 
 Parties == Tenants \cup Providers \cup Auditors
 ESCROW == "escrow"
@@ -278,6 +279,7 @@ StartGroup(S, a) ==
 CreateBid(S, a) ==
   LET oid == OId(a.t, a.d, a.g, a.o)  gid == GId(a.t, a.d, a.g)  b == BId(a.t, a.d, a.g, a.o, a.p) IN
   IF \/ a.price = 0 \/ a.deposit < BidMinDeposit
+     \/ Cardinality({q \in Providers : Has(S.bid, BId(a.t, a.d, a.g, a.o, q))}) > OrderMaxBids
      \/ ~Has(S.ord, oid) \/ S.ord[oid].state # "open"
      \/ a.price > S.grp[gid].price
      \/ ~Has(S.prov, a.p)
